@@ -32,6 +32,7 @@ def lib(kind):
 
 
 HIST = [False]
+INTS = [False]          # integral magnitudes are handed over as python ints (3 deg, 90 arcmin)
 
 
 class CopyBroken(Exception):
@@ -39,6 +40,8 @@ class CopyBroken(Exception):
 
 
 def mk(kind, unit, v):
+    if INTS[0] and kind not in NUM and float(v).is_integer() and abs(v) < 1e15:
+        v = int(v)
     if HIST[0] == 2 and kind not in NUM:
         # the caller took copies in every unit beforehand and went on converting THOSE in place: the operand itself
         # was never touched, so it must still behave as (v, unit)
@@ -272,6 +275,7 @@ def run_combo(ctx, idx, A, op, Bq, tier, matrix=None):
     for n_pair, (va, vb) in enumerate(pairs):
         # every other pair uses operands that went through an in-place conversion first (object history)
         HIST[0] = (0, 1, 3, 2)[n_pair % 4]
+        INTS[0] = n_pair % 3 == 2
         if HIST[0] == 1:
             ctx.count('operations_on_converted_objects')
         if HIST[0] == 2:
@@ -316,6 +320,7 @@ def run_combo(ctx, idx, A, op, Bq, tier, matrix=None):
                     else:
                         ctx.violation('C06:inverse-law-antisymmetry', wit, case)
     HIST[0] = False
+    INTS[0] = False
     for o in outcomes:
         ctx.seen('matrix', f'{ka}{op}{kb}=>{o}')
 
